@@ -37,6 +37,9 @@ func c04Prefixes(r *Rng, n int) []c04Prefix {
 		{"short-string-2byte", fmt.Sprintf("s%d = \"é я ß\";", n)},
 		{"short-string-3byte", fmt.Sprintf("s%d = \"中文 €\";", n)},
 		{"short-string-astral", fmt.Sprintf("s%d = \"😀 𝔘\";", n)},
+		{"short-string-plane-boundaries", fmt.Sprintf("s%d = \"\U00010000 \uffff\U00010001 \U0010ffff\ud7ff\ue000\";", n)},
+		{"long-comment-plane-boundaries", "--[[ \U00010000\U00010000 \uffff ]]"},
+		{"short-string-width-boundaries", fmt.Sprintf("s%d = \"\x7f\u0080 \u07ff\u0800 \ufffd\";", n)},
 		{"short-string-line-continuation", fmt.Sprintf("s%d = \"first\\\nsecond\";", n)},
 		{"short-string-z-across-lines", fmt.Sprintf("s%d = \"first\\z\n   second\";", n)},
 		{"long-string-same-line", fmt.Sprintf("s%d = [%s[long]%s];", n, eq, eq)},
@@ -57,7 +60,7 @@ func c04Prefixes(r *Rng, n int) []c04Prefix {
 
 func c04Composed(r *Rng, n int, kind string) c04Prefix {
 	type seg struct{ feat, text string }
-	plain := []seg{{"ascii", "ab c"}, {"2byte", "é я"}, {"3byte", "中 €"}, {"astral", "😀𝔘"}, {"tab", "\t"}}
+	plain := []seg{{"ascii", "ab c"}, {"2byte", "é я"}, {"3byte", "中 €"}, {"astral", "😀𝔘"}, {"tab", "\t"}, {"first-astral", "\U00010000"}, {"last-bmp", "\uffff"}, {"last-astral", "\U0010ffff"}, {"width-boundaries", "\x7f\u0080\u07ff\u0800"}}
 	shortOnly := []seg{{"esc-n", "\\n"}, {"esc-quote", "\\\""}, {"esc-backslash", "\\\\"}, {"esc-decimal", "\\065"}, {"esc-hex", "\\x41"},
 		{"esc-unicode", "\\u{1F600}"}, {"esc-z-inline", "\\z  "}, {"line-continuation", "\\\n"}, {"z-across-lines", "\\z\n  "}, {"z-across-two-lines", "\\z \n\n "}}
 	longOnly := []seg{{"newline", "\n"}, {"bracket-noise", "]"}, {"quote-noise", "\""}}
